@@ -17,7 +17,7 @@ META = {
         "(fields symbolic through the BER decoder) was tried and dropped: the exception's message formatting "
         "with symbolic operands costs ~6 s per path."),
     "bounds": ["box 1: error-status -2..24 plus 255, 2^31-1, -2^31, error-index 0..1, response echoes the request's bindings",
-               "box 2: error-status in {2, 5, 19}, error-index -2..5, n = 0..3 bindings in the response", "1..3 OIDs in the request", "operations get, multiget, getnext, multigetnext, set, multiset, bulkget, walk, bulkwalk, table",
+               "box 2: error-status in {2, 5, 19}, error-index -2..5, n = 0..3 bindings in the response", "1..3 OIDs in the request", "walk / bulkwalk / table: the error also scripted for the 2nd response only (status 2 there may end the walk, as documented)", "operations get, multiget, getnext, multigetnext, set, multiset, bulkget, walk, bulkwalk, table",
                "v1, v2c, v3 noAuthNoPriv / authNoPriv(MD5) / authPriv(SHA-1 + harness cipher)"],
     "outside": ["error-status values other than the listed ones (the dict lookup in ErrorResponse.construct forces enumeration)"],
     "stubs": ["sender = trampoline", "get_request_id pinned", "privacy plug-in = harness stream cipher"],
@@ -66,7 +66,7 @@ def run_op(world, op, noids):
 SINGLE = ("get", "getnext", "set", "walk", "bulkwalk", "table")
 
 
-def make_harness(kind, op, box, traced=False):
+def make_harness(kind, op, box, traced=False, which=1):
     """
     box "status": every status, index in 0..1, the response echoes the request's bindings (n = k)
     box "index" : status in {2, 5, 19}, every index -2..5, every n in 0..3
@@ -89,7 +89,12 @@ def make_harness(kind, op, box, traced=False):
             world = C.World(kind, Database(UNIVERSE))
             resp_vbs = []
 
+            seen_responses = [0]
+
             def tamper(req, resp):
+                seen_responses[0] += 1
+                if seen_responses[0] != which:
+                    return resp   # the error is scripted for response number `which` only
                 # error responses echo the request's bindings; the agent may send fewer/more (n entries)
                 vbs = [(o, ("null",)) for o, _ in req.varbinds]
                 if n >= 0:
@@ -118,7 +123,11 @@ def make_harness(kind, op, box, traced=False):
                 world.close()
             if outcome[0] == "skip":
                 return True
-            if status == 0:
+            if which > 1 and seen_responses[0] < which:
+                pass   # the operation ended before the scripted response (nothing to judge)
+            elif which > 1 and status == 2 and outcome[0] == "returned":
+                pass   # noSuchName on a follow-up request is the (v1) end-of-walk signal: ending normally is documented
+            elif status == 0:
                 if outcome[0] != "returned":
                     problem = "status 0 but outcome %r" % (outcome,)
             elif outcome[0] == "returned":
@@ -185,6 +194,10 @@ def jobs(tier):
             out.append(Job(f"{kind}-{op}-allstatus", make_harness(kind, op, "status"),
                            [Arg("status_sel", STATUS_LO, STATUS_HI), Arg("index", 0, 1), Arg("nresp", 0, 0), Arg("noids", 1, 3)],
                            timeout=400 if quick else 1200, mode="E/concolic-window", functions=funcs, sample_every=7))
+            if op in ("walk", "bulkwalk", "table"):
+                out.append(Job(f"{kind}-{op}-allstatus-2nd-response", make_harness(kind, op, "status", which=2),
+                               [Arg("status_sel", STATUS_LO, STATUS_HI), Arg("index", 0, 1), Arg("nresp", 0, 0), Arg("noids", 1, 3)],
+                               timeout=400 if quick else 1200, mode="E/concolic-window", functions=funcs, sample_every=7))
             out.append(Job(f"{kind}-{op}-allindex", make_harness(kind, op, "index"),
                            [Arg("status_sel", 0, 2), Arg("index", -2, 5), Arg("nresp", 0, 3), Arg("noids", 1, 3)],
                            timeout=400 if quick else 1200, mode="E/concolic-window", functions=funcs, sample_every=7))
